@@ -116,6 +116,10 @@ def stepSt (st : St) (ws : List String) : St × String :=
         ({ st with progs := st.progs ++ [(tid, parsed.filterMap id)] }, "ok")
       else (st, "bad-op")
     | none => (st, "bad-op")
+  | ["watchall", _] =>
+    -- destructors of dying objects copy-and-drop every live handle variable: no count changes (no live handle
+    -- designates an object that is being destroyed - not_destroyed_while_referenced)
+    (st, showState st.s)
   | ["acq_race", _k, _n] =>
     -- three threads acquire from the raw pointer at once while the creator holds the only reference, then release:
     -- every atomic increment counts (refInc is one read-modify-write), so the count is 1 + 3 in every round
